@@ -39,9 +39,15 @@ fn pick_name(r: &mut Rng, pool: &[&str], dom: Dom) -> String {
         0 => long_name(r),
         1 if dom == Dom::Wild => String::new(),
         2 => {
-            // random short identifier
+            // random short identifier (no leading/trailing dot in the representable domain:
+            // it would make an empty class or method name)
             let n = 1 + r.below(3);
-            (0..n).map(|_| *r.pick(&['a', 'b', '.', '$', 'c', 'é'])).collect()
+            let s: String = (0..n).map(|_| *r.pick(&['a', 'b', '.', '$', 'c', 'é'])).collect();
+            if dom == Dom::Representable {
+                format!("a{}b", s)
+            } else {
+                s
+            }
         }
         _ => r.pick(pool).to_string(),
     }
@@ -122,14 +128,15 @@ pub fn gen_mapping(r: &mut Rng, o: &GenOpts) -> String {
             // a group of entries sharing the obfuscated range (inline group)
             let obf = pick_name(r, METH, o.dom);
             let a = num(r, o.dom);
-            let b = match r.below(6) {
+            let clamp = |x: u128| if o.dom == Dom::Representable { x.min((1u128 << 32) - 2) } else { x };
+            let b = clamp(match r.below(6) {
                 0 => a,
                 1 => a + r.below(5) as u128,
                 2 => a.saturating_sub(1),
                 3 => 0,
                 4 => num(r, o.dom),
                 _ => a + 3,
-            };
+            });
             let grp = 1 + if r.chance(1, 3) { r.below(3) } else { 0 };
             let group_orig = pick_name(r, OMETH, o.dom);
             let group_args = r.pick(ARGS).to_string();
@@ -151,7 +158,7 @@ pub fn gen_mapping(r: &mut Rng, o: &GenOpts) -> String {
                         }
                         3 => {
                             let x = num(r, o.dom);
-                            format!(":{}:{}", x, x + r.below(6) as u128)
+                            format!(":{}:{}", x, clamp(x + r.below(6) as u128))
                         }
                         _ => format!(":{}:{}", num(r, o.dom), num(r, o.dom)),
                     }
